@@ -155,6 +155,24 @@ fn recycle_followup(s: &Snap) -> Result<(), String> {
     Ok(())
 }
 
+thread_local! {
+    /// objects that already hold something: the parsers must replace it completely
+    static DIRTY_SNAP: Snap = valid_snapshots().pop().unwrap();
+    static DIRTY_DELTA: Delta = {
+        let v = valid_snapshots();
+        let mut d = Delta::new();
+        d.create(&v[v.len() - 1], &v[v.len() - 2]);
+        d
+    };
+}
+
+fn delta_ints(d: &Delta) -> Result<Vec<i32>, String> {
+    let mut out = vec![0i32; 20000];
+    let n = d.write_to_ints(obj_size, &mut out).map_err(|_| "accepted delta does not fit 20000 ints".to_string())?.len();
+    out.truncate(n);
+    Ok(out)
+}
+
 fn try_snapshot_ints(ints: &[i32], pool: &Pool) -> Result<&'static str, String> {
     let input_bytes = ints.len() * 4;
     let mut s = Snap::empty();
@@ -165,7 +183,8 @@ fn try_snapshot_ints(ints: &[i32], pool: &Pool) -> Result<&'static str, String> 
     }
     // byte form
     let bytes = ints_to_bytes(ints);
-    let mut s2 = Snap::empty();
+    // the byte form is read into an object that already holds another snapshot
+    let mut s2 = DIRTY_SNAP.with(|d| d.clone());
     let mut ib = Vec::new();
     let (r2, peak2) = measure(|| s2.read(&mut w, &mut ib, &bytes));
     if peak2 > 64 * bytes.len() + 65536 {
@@ -178,6 +197,9 @@ fn try_snapshot_ints(ints: &[i32], pool: &Pool) -> Result<&'static str, String> 
         Err(_) => Ok("snap:rejected"),
         Ok(()) => {
             let out = accepted_snapshot(&s, "snapshot from ints")?;
+            if snap_ints(&s2) != snap_ints(&s) {
+                return Err("the same input read into an object that held another snapshot gives a different snapshot".into());
+            }
             recycle_followup(&s)?;
             let mut p = pool.lock().unwrap();
             // distinct, non-empty snapshots; per-family caps keep the pool diverse
@@ -197,7 +219,8 @@ fn try_delta_ints(ints: &[i32], dpool: &Mutex<BTreeMap<Vec<i32>, ()>>) -> Result
         return Err(format!("Delta::read_from_ints allocates {} bytes for {} input bytes", peak, ints.len() * 4));
     }
     let bytes = ints_to_bytes(ints);
-    let mut d2 = Delta::new();
+    // the byte form is read into an object that already holds another delta
+    let mut d2 = DIRTY_DELTA.with(|d| d.clone());
     let (r2, peak2) = measure(|| d2.read(&mut w, obj_size, &mut Unpacker::new(&bytes)));
     if peak2 > 64 * bytes.len() + 65536 {
         return Err(format!("Delta::read allocates {} bytes for {} input bytes", peak2, bytes.len()));
@@ -208,6 +231,9 @@ fn try_delta_ints(ints: &[i32], dpool: &Mutex<BTreeMap<Vec<i32>, ()>>) -> Result
     match r {
         Err(_) => Ok("delta:rejected"),
         Ok(()) => {
+            if delta_ints(&d)? != delta_ints(&d2)? {
+                return Err("the same input read into an object that held another delta gives a different delta".into());
+            }
             let mut p = dpool.lock().unwrap();
             if ints.len() > 3 && p.len() < FAMILY_CAP_A.load(std::sync::atomic::Ordering::Relaxed) {
                 p.insert(ints.to_vec(), ());
